@@ -52,4 +52,44 @@ func init() {
 		}
 		return r
 	}})
+	boundedChecks["C01"] = append(boundedChecks["C01"], &BoundedCheck{Name: "C01/cbpf", Run: func(out *propOutcome) *BoundedResult {
+		nr := 460
+		if out.Tier == "thorough" {
+			nr = 4096
+		}
+		r := &BoundedResult{Name: "C01/cbpf",
+			Bound:      fmt.Sprintf("35 policies (7 default actions incl. unset and unknown x 5 allow/trace list shapes) x 4 architecture tags x syscall numbers 0..%d, their x32 aliases and 32-bit edge values; argument words zero", nr),
+			Oracle:     "an independent classic-BPF interpreter over seccomp_data, syscall numbers from the Go standard library's table; expected verdicts written from the property statement",
+			Exhaustive: true,
+			Assumptions: []string{"go-seccomp-bpf Policy.Assemble and x/net/bpf.Assemble (dependencies, assumed in the contracts) produce the declared filter only as far as this bounded comparison shows", "the kernel executes cBPF as the interpreter does"}}
+		t0 := time.Now()
+		o, err := runOverlayTest("pkg/seccomp/libseccomp", map[string]string{"bounded_cbpf_test.go": "zz_gocv_bounded_cbpf_test.go"}, "TestGocvBoundedCBPF", 10*time.Minute, []string{fmt.Sprintf("GOCV_NRMAX=%d", nr)})
+		r.Seconds = time.Since(t0).Seconds()
+		parseHarnessOutput(o, r)
+		if r.Evaluations == 0 {
+			r.Error = "harness produced no evaluations: " + firstLines(o, 12)
+			if err != nil {
+				r.Error += " (" + err.Error() + ")"
+			}
+		}
+		return r
+	}})
+	boundedChecks["C08"] = append(boundedChecks["C08"], &BoundedCheck{Name: "C08/rlimit", Run: func(out *propOutcome) *BoundedResult {
+		r := &BoundedResult{Name: "C08/rlimit",
+			Bound:      "every combination of the seven numeric fields over {0, 1, 7, 2^63, 2^64-1} and both values of DisableCore (156250 records); the function branches only on field > 0 and CPUHard < CPU",
+			Oracle:     "an independently written table: one entry per non-zero resource in the order CPU, DATA, FSIZE, STACK, AS, NOFILE, CORE with the configured soft/hard values",
+			Exhaustive: true,
+			Assumptions: []string{"positions and values of the DATA..NOFILE entries of PrepareRLimit are bounded-checked only (the deductive contract states length, CPU and CORE entries)"}}
+		t0 := time.Now()
+		o, err := runOverlayTest("pkg/rlimit", map[string]string{"bounded_rlimit_test.go": "zz_gocv_bounded_rlimit_test.go"}, "TestGocvBoundedRLimit", 10*time.Minute, nil)
+		r.Seconds = time.Since(t0).Seconds()
+		parseHarnessOutput(o, r)
+		if r.Evaluations == 0 {
+			r.Error = "harness produced no evaluations: " + firstLines(o, 12)
+			if err != nil {
+				r.Error += " (" + err.Error() + ")"
+			}
+		}
+		return r
+	}})
 }
